@@ -410,8 +410,13 @@ func checkC15(w *World, r *Report) {
 			}
 			return false, false
 		})
+		// (returning without a write is fine when not a single message of the batch was accepted)
+		emptyCut := map[Edge]bool{}
+		for _, e := range emptyBatchEdges(w, g, envF["Messages"]) {
+			emptyCut[e] = true
+		}
 		for _, e := range skip {
-			rr := g.reach([]int{e.to}, sendNode, nil)
+			rr := g.reach([]int{e.to}, sendNode, emptyCut)
 			for _, x := range g.returns {
 				if rr[x] {
 					okCont = false
@@ -1005,6 +1010,50 @@ func checkC16(w *World, r *Report) {
 	if n == 0 {
 		r.Unknown("C16.R4", "processers", "custom Processer implementations", "-", "none found")
 	}
+	// the stream writer is registered (and addressable by anybody) before its stream exists: it may use
+	// the stream only once a delivery of the router was accepted into the batch, or after a nil check
+	if a.wInvoke != nil {
+		W := a.wInvoke
+		wg := w.FGI(W)
+		var nonEmpty []Edge
+		for _, al := range w.allocsOf(W, a.envT) {
+			if fs, okF := w.litFields(al); okF && fs["Messages"] != nil {
+				want := "len(" + w.pathOf(fs["Messages"]) + ")"
+				_, ne := wg.CondEdges(func(c ssa.Value) (bool, bool) {
+					b, ok := c.(*ssa.BinOp)
+					if !ok || w.pathOf(b.X) != want || w.pathOf(b.Y) != "K:0" {
+						return false, false
+					}
+					switch b.Op {
+					case token.EQL, token.LEQ:
+						return true, true
+					case token.NEQ, token.GTR:
+						return false, true
+					}
+					return false, false
+				})
+				nonEmpty = append(nonEmpty, ne...)
+			}
+		}
+		_, streamSet := w.nilEdges(wg, "P0.stream")
+		guard := append(nonEmpty, streamSet...)
+		okS := true
+		used := 0
+		where := ""
+		for i, in := range wg.ins {
+			c := callOf(in)
+			if c == nil || !c.IsInvoke() || w.pathOf(c.Value) != "P0.stream" {
+				continue
+			}
+			used++
+			if len(guard) == 0 || !wg.OnlyVia(guard, i) {
+				okS = false
+				where = w.pos(in.Pos())
+			}
+		}
+		r.Check(okS && used > 0, "C16.R4", fname(W)+":stream-only-with-accepted-deliveries", "the writer touches its stream only when the batch holds an accepted delivery (or the stream was checked for nil)", w.fnPos(W),
+			"the stream is used at "+where+" although every message of the batch may have been rejected: a message addressed to the writer's PID while it is still dialling dereferences the nil stream on the inbox goroutine and kills the node")
+	}
 	// comma-ok discipline: the asserted value is only used where ok holds
 	for _, fn := range w.Funcs {
 		if !w.isLib(fn) || fnPkgPath(fn) != modPath+"/remote" || strings.Contains(w.Fset.Position(fn.Pos()).Filename, ".pb.go") {
@@ -1275,8 +1324,16 @@ func checkC17(w *World, r *Report) {
 			return false, false
 		})
 		ok := len(skip) > 0 && anyOf(sendN)
+		emptyCut := map[Edge]bool{}
+		for _, al := range w.allocsOf(W, a.envT) {
+			if fs, okF := w.litFields(al); okF {
+				for _, e := range emptyBatchEdges(w, wg, fs["Messages"]) {
+					emptyCut[e] = true
+				}
+			}
+		}
 		for _, e := range skip {
-			rr := wg.reach([]int{e.to}, sendN, nil)
+			rr := wg.reach([]int{e.to}, sendN, emptyCut)
 			for _, x := range wg.returns {
 				if rr[x] {
 					ok = false
@@ -1660,4 +1717,31 @@ func inlineLookup(w *World, g *FG, iv, tv ssa.Value, keyWant func(string) bool, 
 		}
 	}
 	return m, key, true, ""
+}
+
+
+// emptyBatchEdges: the edges on which the slice v (the accumulated Messages of the batch) is known to be empty.
+func emptyBatchEdges(w *World, g *FG, v ssa.Value) []Edge {
+	if v == nil {
+		return nil
+	}
+	want := "len(" + w.pathOf(v) + ")"
+	es, _ := g.CondEdges(func(c ssa.Value) (bool, bool) {
+		b, ok := c.(*ssa.BinOp)
+		if !ok {
+			return false, false
+		}
+		x, y := w.pathOf(b.X), w.pathOf(b.Y)
+		if x != want || y != "K:0" {
+			return false, false
+		}
+		switch b.Op {
+		case token.EQL, token.LEQ:
+			return true, true
+		case token.NEQ, token.GTR:
+			return false, true
+		}
+		return false, false
+	})
+	return es
 }
